@@ -43,6 +43,7 @@ def run(prop, tier):
                      "weights are integers or dyadic so double arithmetic in the oracle is exact",
                      "harness compiled with the shipped configuration (-O2 -DNDEBUG, PARMCB_INVARIANTS_CHECK on)"]
     binary = vlib.build("exact", "exact.cpp")
+    c.builds_done()
     for bound, arglists in runs(tier):
         for args in arglists:
             rem = c.remaining()
